@@ -170,13 +170,16 @@ CLAIMED = {
     },
     "C19": {
         "technique": "KdeExact.tla closed-form mixture moments, mass and end densities (KdeInterval.tla) vs GaussianKDE.moments / interval / mode "
-                     "under affine maps; GaussianKDE clauses only",
+                     "under affine maps; PdfTable.tla judges tabulated-density traces of both estimators (UnimodalPdf, GaussianKDE) fitted to "
+                     "the quantile-sample family of MC_PdfFamily.tla",
         "text": "Light-tailed integer-mean histograms (hundreds to thousands of points by replication) x bandwidths x affine maps with scales 2^-20..2^20 "
                 "and locations up to 1e6 standard deviations: mean / variance / skewness / kurtosis against the closed form in units of the data's "
                 "scale (only where < 2e-4 of the mass lies outside the estimator's integration range), covariance between runs, mode maximality; "
-                "interval(f) ends are fed back to the reference, which prints mass and end densities.",
-        "note": "UnimodalPdf clauses are NOT decided (quadrature/optimiser accuracy of a fitted curve; nothing exactly computable). Interval tolerances "
-                "(1e-2 mass, 5e-2 of the peak in end density) are the interval search's own stopping tolerance.",
+                "interval(f) ends are fed back to the reference, which prints mass and end densities. Both estimators on unimodal quantile samples "
+                "(8 shapes, 300-5000 points, scales 1e-6..1e6, locations to 2e4 std): 256-cell tables of density and cdf judged clause by clause by TLC.",
+        "note": "UnimodalPdf: self-consistency clauses are decided on its tabulated density (trapezium on 256 cells; tolerances in PdfTable.tla); its "
+                "moments clause uses an independent quadrature of the estimator's own density as reference; its covariance clause only with wide bands "
+                "(the fit is not unique). Lattice-histogram interval tolerances: 1e-2 mass, 5e-2 of the peak.",
         "ref": "DESIGN.md sections 3 C19 and 5",
     },
     "C13": {
